@@ -59,6 +59,7 @@ pub fn gen_c12(seed: u64, tier: Tier) -> CaseSet {
     let mut verdc: HashMap<String, u64> = Default::default();
     let mut rk = rand::rng();
     let mut cid = 0u64;
+    let mut path_only_checked = 0u64;
     for _ in 0..nbase {
         let leader = SecretKey::new(&mut rk);
         let other = SecretKey::new(&mut rk);
@@ -84,6 +85,8 @@ pub fn gen_c12(seed: u64, tier: Tier) -> CaseSet {
         let other_c = parse(&wincode::serialize(sc[k].as_shred()).unwrap()).unwrap();
         // (name, mutated shred, signature made by the leader?, message the signature was made over, expectation without cache)
         let mut muts: Vec<(&'static str, Parsed, bool, Vec<u8>, u8)> = Vec::new();
+        let mut short_cache: Option<SliceCommitment> = None;
+        let mut short_root: Option<alpenglow::crypto::merkle::SliceRoot> = None;
         let base = |p: &Parsed| Parsed { tag: p.tag, slot: p.slot, slice: p.slice, last: p.last, index: p.index, data: p.data.clone(), sig: p.sig.clone(), path: p.path.clone() };
         muts.push(("valid", base(&orig), true, orig_commit.clone(), 0));
         { let mut m = base(&orig); m.slot += 1 + rng.below(3); muts.push(("replayed-under-other-slot", m, true, orig_commit.clone(), 1)); }
@@ -106,13 +109,51 @@ pub fn gen_c12(seed: u64, tier: Tier) -> CaseSet {
         { let mut m = base(&orig); m.sig = other_c.sig.clone(); muts.push(("signature-by-other-key", m, false, vec![], 1)); }
         { let mut m = base(&orig); let i = rng.below(64) as usize; m.sig[i] ^= 1 << rng.below(8); muts.push(("signature-byte-flipped", m, false, vec![], 1)); }
         muts.push(("conflicting-slice-valid", base(&other_b), true, commit_b.clone(), 0));
+        // a slice the (Byzantine) leader signed over a tree of only 32 leaves: proofs have 5 elements; leaf `pos` offered at
+        // its own position (valid) and at the alias position pos + 32 beyond the width of that tree (must be rejected,
+        // also when the short tree's commitment is already cached)
+        {
+            use alpenglow::crypto::merkle::PlainMerkleTree;
+            let leaves: Vec<Vec<u8>> = (0..32).map(|i| parse(&wincode::serialize(sa[i].as_shred()).unwrap()).unwrap().data).collect();
+            let tree = PlainMerkleTree::new(&leaves);
+            let root32 = tree.get_root().as_ref().to_vec();
+            let pos = rng.below(32) as usize;
+            let path: Vec<Vec<u8>> = tree.create_proof(pos).iter().map(|h| h.as_ref().to_vec()).collect();
+            let commit32 = commitment_bytes(slot, idx_a, last_a, &root32);
+            let sig = wincode::serialize(&leader.sign_bytes(&commit32)).unwrap();
+            if sig.len() == 64 && path.len() == 5 {
+                let inw = Parsed { tag: 0, slot, slice: idx_a, last: last_a as u8, index: pos as u64, data: leaves[pos].clone(), sig: sig.clone(), path: path.clone() };
+                if let Ok(sh) = wincode::deserialize::<Shred>(&unparse(&inw)) {
+                    if let Ok(v) = ValidatedShred::try_new(sh, None, &pk) { short_cache = Some(v.commitment()); short_root = Some(v.slice_root().clone()); }
+                }
+                muts.push(("short-tree-in-width", inw, true, commit32.clone(), 0));
+                let alias = Parsed { tag: 1, slot, slice: idx_a, last: last_a as u8, index: pos as u64 + 32, data: leaves[pos].clone(), sig, path };
+                muts.push(("short-tree-alias-index-beyond-width", alias, true, commit32, 1));
+            }
+        }
         for (name, m, by_leader, sig_msg, expect) in muts {
             let bytes = unparse(&m);
             let Ok(shred) = wincode::deserialize::<Shred>(&bytes) else { continue };
+            // Shred::verify_path_only (path check against a KNOWN root) must agree with the full proof check, in
+            // particular for positions beyond the width of a smaller tree
+            {
+                let known: Option<alpenglow::crypto::merkle::SliceRoot> = if name.starts_with("short-tree") { short_root.clone() } else { Some(sa[0].slice_root().clone()) };
+                if let Some(root) = known {
+                    let expect_ok = matches!(name, "valid" | "short-tree-in-width" | "last-flag-flipped" | "replayed-under-other-slot" | "replayed-under-other-slice" | "data-coding-tag-flipped" | "signature-of-conflicting-slice" | "signature-by-other-key" | "signature-byte-flipped");
+                    let expect_bad = matches!(name, "short-tree-alias-index-beyond-width" | "payload-byte-flipped" | "payload-truncated" | "payload-extended" | "proof-element-corrupted" | "proof-shortened" | "proof-lengthened");
+                    let got = catch_unwind(AssertUnwindSafe(|| shred.verify_path_only(&root)));
+                    path_only_checked += 1;
+                    match got {
+                        Err(_) => stats.harness_findings.push((cid, format!("shred-auth:verify_path_only:{}:panic", name))),
+                        Ok(g) => { if (expect_ok && !g) || (expect_bad && g) { stats.harness_findings.push((cid, format!("shred-auth:verify_path_only:{}:{}", name, if g { "accepted" } else { "rejected" }))); } }
+                    }
+                }
+            }
             // cached commitment: none / the original slice's / the conflicting slice's
-            for cache_mode in 0..3u8 {
-                if cache_mode > 0 && rng.chance(1, 2) { continue; }
-                let cached: Option<SliceCommitment> = match cache_mode { 0 => None, 1 => Some(sa[0].commitment()), _ => Some(sb[0].commitment()) };
+            for cache_mode in 0..4u8 {
+                if (cache_mode == 1 || cache_mode == 2) && rng.chance(1, 2) { continue; }
+                if cache_mode == 3 && !(name.starts_with("short-tree") && short_cache.is_some()) { continue; }
+                let cached: Option<SliceCommitment> = match cache_mode { 0 => None, 1 => Some(sa[0].commitment()), 2 => Some(sb[0].commitment()), _ => short_cache.clone() };
                 let cached_bytes: Option<Vec<u8>> = cached.as_ref().map(|c| c.as_ref().to_vec());
                 let sh = shred.clone(); let pk2 = pk;
                 let r = catch_unwind(AssertUnwindSafe(|| ValidatedShred::try_new(sh, cached.as_ref(), &pk2)));
@@ -134,8 +175,9 @@ pub fn gen_c12(seed: u64, tier: Tier) -> CaseSet {
             }
         }
     }
-    stats.rule = "real shreds of small slices (RegularShredder, fresh leader key) and the mutation catalogue applied to the wire bytes: other slot / slice index / last flag / shred index, payload byte flipped / truncated / extended, proof element corrupted, proof shortened / lengthened, data-coding tag flipped, signature of a conflicting validly signed slice, signature by another key, signature byte flipped, and the conflicting slice itself; each with no cached commitment, the original slice's and the conflicting slice's cached commitment; non-trivial = a mutated shred; distinct by content".into();
+    stats.rule = "real shreds of small slices (RegularShredder, fresh leader key) and the mutation catalogue applied to the wire bytes: other slot / slice index / last flag / shred index, payload byte flipped / truncated / extended, proof element corrupted, proof shortened / lengthened, data-coding tag flipped, signature of a conflicting validly signed slice, signature by another key, signature byte flipped, and the conflicting slice itself; each with no cached commitment, the original slice's and the conflicting slice's cached commitment; plus a slice signed over a tree of only 32 leaves whose leaf is offered at its own and at the alias position beyond the tree's width, with no cache and with that slice's own cached commitment; non-trivial = a mutated shred; distinct by content".into();
     let mut v: Vec<_> = mutc.into_iter().collect(); v.sort();
+    stats.distribution.push(("verify_path_only_compared".into(), path_only_checked.to_string()));
     stats.distribution.push(("mutations".into(), v.iter().map(|(k, c)| format!("{}={}", k, c)).collect::<Vec<_>>().join(", ")));
     let mut v: Vec<_> = verdc.into_iter().collect(); v.sort();
     stats.distribution.push(("verdicts".into(), v.iter().map(|(k, c)| format!("{}={}", k, c)).collect::<Vec<_>>().join(", ")));
